@@ -265,7 +265,9 @@ def judge(v, recs, wd):
   def run(k):
     path = os.path.join(wd, f'c12-{k}.json')
     with open(path, 'w') as f:
-      json.dump([{kk: r[kk] for kk in ('tid', 'heap', 'out', 'result')} for r in slices[k]], f)
+      # (compared modulo the identity of internable tuples: source text cannot express it)
+      json.dump([{'tid': r['tid'], 'heap': H.canon_values(r['heap']), 'out': r['out'],
+                  'result': H.canon_values(r['result'])} for r in slices[k]], f)
     return common.run_tlc('Trace_C12', common.cfg_text({}, init='TInit', next_='TNext'),
                           workdir=os.path.join(wd, f'tr{k}'), on_json=on_json, workers=1,
                           env={'TRACE_FILE': path})
